@@ -2,7 +2,7 @@
 from contracts import model as M
 from contracts import output as O
 
-UNITS = [M.ModelUpdate("sparse"), M.ModelUpdate("dense"), M.ModelUpdate(None), M.ModelFinish({}), M.ModelFinish(dict(grid=True, release=True, tracker=True)), M.ModelFinish(dict(forcing=False, ibm=False, output=False)), O.OutputUpdate()]
+UNITS = [M.ModelUpdate("sparse"), M.ModelUpdate("dense"), M.ModelUpdate(None), M.ModelFinish({}), M.ModelFinish(dict(grid=True, release=True, tracker=True)), M.ModelFinish(dict(forcing=False, ibm=False, output=False)), O.OutputUpdate(), M.ModelInit(True), M.ModelInit(False)] + list(M.LOADER_UNITS)
 LEMMAS = [M.MainLoopStructure()]
 NATIVE = [dict(name="step protocol observed on the real Model with recording plug-ins (module path vs name, cold/warm start)", harness="protocol_bounded", kind="bounded")]
 LEVEL = "proof"
